@@ -2350,5 +2350,88 @@ def r_trimidx(P, chk):
                         chk.violation(rid, "trimidx:%s:%s:%s" % (f.unit.base, f.name, d), f.where(w),
                                       "`%s` is shortened when %s[%s] matches, but the element removed is [%s - 1]: the test looks %s the run" % (
                                           d, key(a["c"][0]), key(a["c"][1]), key(a["c"][1]), "past the end of" if c0 >= 0 else "before the end of"))
+    # the two-sided form: `if (..) { S++; L -= 2; }` strips one byte at each end of the run [S, S+L): both bytes must have been
+    # looked at - s[S] and s[S + L - 1]; stripping on the strength of the first alone cuts whatever byte happens to end the run
+    n_pair = 0
+    for f in P.all_funcs:
+        if not P.first_party(f) or f.unit.base in ("miniz.c", "argtable3.c") or f.unit.base in compdb.GENERATED_UNITS:
+            continue
+        for w in f.walk():
+            if w["k"] != "IfStmt" or w["c"][0] is None or w["c"][1] is None:
+                continue
+            twos, incs = set(), set()
+            for x in walk(w["c"][1]):
+                if x["k"] == "CompoundAssignOperator" and x["op"] == "-=" and const_value(x["c"][1]) == 2:
+                    twos.add(key(x["c"][0]))
+                elif x["k"] == "UnaryOperator" and x["op"] in ("post++", "pre++"):
+                    incs.add(key(x["c"][0]))
+                elif x["k"] == "CompoundAssignOperator" and x["op"] == "+=" and const_value(x["c"][1]) == 1:
+                    incs.add(key(x["c"][0]))
+            # only the innermost `if` that holds both statements
+            if not twos or not incs or any(y is not w and y["k"] == "IfStmt" and any(
+                    z["k"] == "CompoundAssignOperator" and z["op"] == "-=" and const_value(z["c"][1]) == 2 for z in walk(y)) for y in walk(w["c"][1])):
+                continue
+            forms = [_linear(f, a["c"][1]) for a in walk(w["c"][0]) if a["k"] == "ArraySubscriptExpr"]
+            forms = [{k2: v for k2, v in lf.items() if v} for lf in forms if lf is not None]
+            for L in twos:
+                for S in incs:
+                    if S == L:
+                        continue
+                    n_pair += 1
+                    first = {S: 1} in forms
+                    last = {S: 1, L: 1, 1: -1} in forms
+                    chk.obligation(rid, "%s %s: `%s++; %s -= 2` under tests of [%s] and [%s + %s - 1]" % (f.where(w), f.name, S, L, S, S, L), first and last)
+                    if not (first and last):
+                        chk.violation(rid, "trimidx:pair:%s:%s" % (f.name, L), f.where(w),
+                                      "%s strips one byte at each end of the run (`%s++`, `%s -= 2`) but its condition tests %s: the "
+                                      "byte removed at the %s was never compared, so a run that merely starts like a delimited one loses "
+                                      "its last byte (half of a multi-byte character)" % (
+                                          f.name, S, L, "only the first byte" if first else ("only the last byte" if last else "neither end"),
+                                          "end" if first else "start"))
+    chk.floor(rid, n_pair, 1, "two-sided trim sites")
     chk.floor(rid, n_sites, 4, "trailing-trim sites")
     chk.analysed[rid] = {"sites": n_sites}
+
+
+def r_memsize(P, chk):
+    """memset/memcpy/memmove count *bytes*.  Where the destination is typed as a pointer to (or array of) objects wider than one
+    byte, a size that is a bare element count clears/copies only a fraction of the objects; the rest keeps whatever the allocator
+    handed out (history-dependent content) or stays uncopied."""
+    rid = "R-MEMSIZE"
+    chk.rule(rid, "memset/memcpy/memmove on a destination whose element type is wider than a byte: the size argument is scaled by "
+                  "sizeof (directly or through the local it is computed in)")
+    n = 0
+    for f in P.all_funcs:
+        if not P.first_party(f) or f.unit.base in ("miniz.c", "argtable3.c"):
+            continue
+        for c in f.calls():
+            if c.get("callee") not in ("memset", "memcpy", "memmove") or len(c["c"]) <= 3:
+                continue
+            d = strip(c["c"][1])
+            t = ((d or {}).get("t") or "").replace("const ", "").replace("struct ", "").strip()
+            base = re.sub(r"(\s*\*|\s*\[\d*\])+$", "", t).strip()
+            if not t or base in ("char", "unsigned char", "signed char", "void", "uint8_t", "int8_t", "mz_uint8"):
+                continue
+            n += 1
+
+            def scaled(e, depth=0):
+                if any(y["k"] == "UnaryExprOrTypeTraitExpr" for y in walk(e)):
+                    return True
+                if depth > 2:
+                    return False
+                for y in walk(e):
+                    if y["k"] == "DeclRefExpr" and y.get("dk") == "Var":
+                        for z in f.walk():
+                            if z["k"] == "VarDecl" and z.get("n") == y["n"] and z.get("c") and z["c"][0] is not None and scaled(z["c"][0], depth + 1):
+                                return True
+                            if z["k"] == "BinaryOperator" and z["op"] == "=" and key(z["c"][0]) == y["n"] and scaled(z["c"][1], depth + 1):
+                                return True
+                return False
+            ok = scaled(c["c"][3])
+            chk.obligation(rid, "%s %s: %s(%s [%s], .., %s)" % (f.where(c), f.name, c["callee"], key(c["c"][1])[:40], t, f.src(c["c"][3])[:50]), ok)
+            if not ok:
+                chk.violation(rid, "memsize:%s:%s" % (f.name, key(c["c"][1])[:40]), f.where(c),
+                              "%s passes `%s` as the byte count of %s on a `%s` destination: that is an element count, so only a "
+                              "fraction of the objects is written and the rest keeps stale heap content" % (
+                                  f.name, f.src(c["c"][3])[:60], c["callee"], t))
+    chk.floor(rid, n, 10, "memset/memcpy/memmove calls on destinations wider than a byte")
